@@ -19,9 +19,10 @@ import (
 // ---------- the application side: handlers that do what the request tells them ----------
 
 type sessRec struct {
-	ss     *gortsplib.ServerSession
-	closes int
-	why    string
+	ss       *gortsplib.ServerSession
+	closes   int
+	why      string
+	closedAt time.Time
 }
 
 type connRec struct {
@@ -35,10 +36,10 @@ type core struct {
 	cond     *sync.Cond
 	srv      *gortsplib.Server
 	streams  [2]*gortsplib.ServerStream
-	sessions []*sessRec                 // in OnSessionOpen order (reset per case)
+	sessions []*sessRec // in OnSessionOpen order (reset per case)
 	bySess   map[*gortsplib.ServerSession]*sessRec
-	conns    map[string]*connRec        // by remote address of the server-side conn
-	stray    int                        // OnSessionClose for a session never opened
+	conns    map[string]*connRec // by remote address of the server-side conn
+	stray    int                 // OnSessionClose for a session never opened
 }
 
 func newCore() *core {
@@ -98,6 +99,7 @@ func (h hb) OnSessionClose(ctx *gortsplib.ServerHandlerOnSessionCloseCtx) {
 	h.c.mu.Lock()
 	if r, ok := h.c.bySess[ctx.Session]; ok {
 		r.closes++
+		r.closedAt = time.Now()
 		if ctx.Error != nil {
 			r.why = ctx.Error.Error()
 		}
@@ -275,10 +277,10 @@ func (c *core) waitFor(d time.Duration, pred func() bool) bool {
 // ---------- the peer side: a raw-socket RTSP driver ----------
 
 type rawConn struct {
-	nc     net.Conn
-	br     *bufio.Reader
-	local  string
-	dead   bool
+	nc    net.Conn
+	br    *bufio.Reader
+	local string
+	dead  bool
 }
 
 func dialFrom(ip string, addr string) (*rawConn, error) {
